@@ -55,7 +55,8 @@ pub fn replay_file(path: &str) -> i32 {
             let env = env_of(&j);
             match drive::build(program, drive::argument_map(&args), debug) {
                 Err(e) => format!("not-compiled: {e:?}"),
-                Ok(b) => {
+ Ok(b) => {
+                    println!("under-constrained witness nodes (witness nodes, under-constrained): {:?}", drive::guard(|| drive::under_constrained_witnesses(&b.compiled)));
                     let out = if kind == "run" { drive::run(&b, drive::witness_map(&wit), &env) } else { drive::run_pruned(&b, drive::witness_map(&wit), &env) };
                     println!("outcome: {out:?}");
                     out.class().to_string()
